@@ -4,7 +4,7 @@ from ..env import sub_rng
 
 ID = 'C05'
 LEVEL = 'exploration'
-RUNS = {'quick': 1500, 'thorough': 40000}
+RUNS = {'quick': 1500, 'thorough': 120000}
 WALL = {'quick': 120, 'thorough': 1500}
 RULE = ("seeded op sequences (Step loops, Solve, repeated Solve, limits (re)set at any point incl. 0/1/None/new=True, "
         "termination trees incl. TimeLimits on three simulated clocks and SolverInterrupt) with SIGINT delivered from inside a "
